@@ -52,14 +52,116 @@ type Exec struct {
 	onCall    func(st *State, rec *CallRecord)
 	onAcquire func(st *State, guarded *Obj)
 	isCallee  bool
+	rtMode    bool
+	pkgForTags *ssa.Package
+	trackWrites bool
 }
 
 func (x *Exec) fail(st *State, kind, name, detail string) {
 	x.oblige(st, kind, name, False, detail)
 }
 
+// chainGoal decides extends / suffixof goals by following the skolem equations
+// (old == piece ++ new, new == old ++ piece) that the callee frames put into the path condition.
+func chainGoal(st *State, g *Term) *Term {
+	if g.Op == "and" {
+		out := make([]*Term, len(g.Args))
+		for i, a := range g.Args {
+			out[i] = chainGoal(st, a)
+		}
+		return And(out...)
+	}
+	if !(g.Op == "app" && (g.Name == "extends" || g.Name == "suffixof")) {
+		return g
+	}
+	a, b := g.Args[0], g.Args[1]
+	cur := b
+	for steps := 0; steps < 400; steps++ {
+		if Same(cur, a) {
+			return True
+		}
+		found := false
+		for _, p := range st.pc {
+			if p.Op != "=" || p.Args[0].Sort != SSeq {
+				continue
+			}
+			var other *Term
+			if Same(p.Args[0], cur) {
+				other = p.Args[1]
+			} else if Same(p.Args[1], cur) {
+				other = p.Args[0]
+			} else if g.Name == "extends" {
+				// looking for  X == cur ++ piece
+				for _, side := range []int{0, 1} {
+					sg := Segs(p.Args[side])
+					cs := Segs(cur)
+					if len(sg) == len(cs)+1 && sg[len(sg)-1].Op == "var" && strings.HasPrefix(sg[len(sg)-1].Name, "piece!") && p.Args[1-side].Op == "var" {
+						ok := true
+						for i := range cs {
+							if !Same(cs[i], sg[i]) {
+								ok = false
+							}
+						}
+						if ok {
+							cur = p.Args[1-side]
+							found = true
+						}
+					}
+				}
+				if found {
+					break
+				}
+				continue
+			} else {
+				continue
+			}
+			sg := Segs(other)
+			if g.Name == "suffixof" && len(sg) >= 2 && sg[0].Op == "var" && strings.HasPrefix(sg[0].Name, "piece!") {
+				cur = Cat(sg[1:]...)
+				found = true
+				break
+			}
+		}
+		if !found {
+			break
+		}
+	}
+	return g
+}
+
 // wrapSeqEq marks top-level sequence equalities of a goal for extensional reasoning.
 func wrapSeqEq(g *Term) *Term {
+	if g.Op == "app" && (g.Name == "extends" || g.Name == "suffixof") {
+		a, b := g.Args[0], g.Args[1]
+		if g.Name == "extends" {
+			sa, sb := Segs(a), Segs(b)
+			if len(sa) >= len(sb) {
+				ok := true
+				for i := range sb {
+					if !Same(sa[i], sb[i]) {
+						ok = false
+					}
+				}
+				if ok {
+					return True
+				}
+			}
+			return And(Le(Len(b), Len(a)), App("eqseq", SBool, Take(a, Len(b)), b))
+		}
+		sa, sb := Segs(a), Segs(b)
+		if len(sb) >= len(sa) {
+			ok := true
+			for i := range sa {
+				if !Same(sa[len(sa)-1-i], sb[len(sb)-1-i]) {
+					ok = false
+				}
+			}
+			if ok {
+				return True
+			}
+		}
+		return And(Le(Len(a), Len(b)), App("eqseq", SBool, Drop(b, Sub(Len(b), Len(a))), a))
+	}
 	switch g.Op {
 	case "=":
 		if g.Args[0].Sort == SSeq {
@@ -82,6 +184,7 @@ func (x *Exec) oblige(st *State, kind, name string, goal *Term, detail string) {
 	if kind == "safe" && !x.emitSafe {
 		return
 	}
+	goal = chainGoal(st, goal)
 	goal = wrapSeqEq(goal)
 	o := &Obligation{
 		Name:   x.inst + "/" + x.run + "/" + name,
@@ -477,6 +580,21 @@ func (st *State) implied(t *Term) int {
 	if t.IsFalse() {
 		return -1
 	}
+	if t.Op == "and" {
+		all := true
+		for _, a := range t.Args {
+			switch st.implied(a) {
+			case -1:
+				return -1
+			case 0:
+				all = false
+			}
+		}
+		if all {
+			return 1
+		}
+		return 0
+	}
 	k, nk := t.Key(), Not(t).Key()
 	for _, p := range st.pc {
 		pk := p.Key()
@@ -514,6 +632,8 @@ func (x *Exec) execInstrs(st *State, b *ssa.BasicBlock, start int) {
 				s2.trace = append(s2.trace, fmt.Sprintf("b%d:else", b.Index))
 				st.assume(c)
 				st.trace = append(st.trace, fmt.Sprintf("b%d:then", b.Index))
+				x.normalizeBuffers(st)
+				x.normalizeBuffers(s2)
 				x.execFrom(st, tb, b)
 				x.execFrom(s2, fb, b)
 			}
@@ -761,6 +881,9 @@ func pureCallee(cc *ssa.CallCommon) bool {
 
 func (x *Exec) loopEnv(st *State, li *loopInfo) map[string]Value {
 	env := map[string]Value{}
+	for k, v := range st.lenv { // names of enclosing loops stay visible
+		env[k] = v
+	}
 	for _, in := range li.header.Instrs {
 		phi, ok := in.(*ssa.Phi)
 		if !ok {
@@ -1036,6 +1159,10 @@ func (x *Exec) store(st *State, addr Value, v Value, in ssa.Instruction) {
 		panic("unsupported:store-to-whole-" + a.Obj.Kind)
 	case VFieldPtr:
 		st.mut(a.Obj).Fields[a.Idx] = v
+		if st.written == nil {
+			st.written = map[string]bool{}
+		}
+		st.written[fmt.Sprintf("%d.%d", a.Obj.ID, a.Idx)] = true
 	case VElemPtr:
 		c := st.mut(a.Arr)
 		if a.Arr.Kind == "buffer" && a.Epoch != c.Epoch {
@@ -1149,6 +1276,11 @@ func (x *Exec) doBinOp(st *State, in *ssa.BinOp) Value {
 			return VInt{Mod(q, Add(p, IntC(1)))}
 		}
 		panic("unsupported:bitand-nonmask")
+	case token.XOR:
+		if ti.Width == 2 && !ti.Signed {
+			return VInt{App("xor16", SInt, p, q)}
+		}
+		panic("unsupported:xor on " + in.X.Type().String())
 	case token.SHR:
 		if q.IsConst() && q.Val.IsInt64() && q.Val.Int64() < 64 {
 			return VInt{Div(p, Pow2(int(q.Val.Int64())))}
